@@ -364,9 +364,11 @@ def rule_R5(piece, toks, loops, src, loop_specs):
         etext = src.text[expr[0].start:expr[-1].end]
         it = 'verif_it%d' % n
         spec = loop_specs.get((n, 'header'), '')
-        head = '{ let mut %s = %s; loop %s{ match %s.next() { Some(%s) => ' % (it, etext, spec + ' ' if spec else '', it, pat)
+        pre = loop_specs.get((n, 'pre-next'), '')
+        on_none = loop_specs.get((n, 'on-none'), '')
+        head = '{ let mut %s = %s; loop %s{ %s match %s.next() { Some(%s) => ' % (it, etext, spec + ' ' if spec else '', pre + ' ' if pre else '', it, pat)
         piece.replace(alltoks[kw].start, alltoks[lp['open']].start, head, 'R5')
-        piece.replace(alltoks[lp['close']].end, alltoks[lp['close']].end, ' None => { break; } } } }', 'R5')
+        piece.replace(alltoks[lp['close']].end, alltoks[lp['close']].end, ' None => { %sbreak; } } } }' % (on_none + ' ' if on_none else ''), 'R5')
         lp['r5'] = True
 
 
@@ -410,14 +412,15 @@ def rule_R7(piece, src, start, end):
         piece.replace(s, e, 'if let Some(verif_ref_%s) = %s { let %s = *verif_ref_%s;' % (x, m.group(2), x, x), 'R7')
 
 
-def rule_R8(piece, src, start, end, loops, loop_specs):
+def rule_R8(piece, src, start, end, loops, loop_specs, r9=False):
     """idiom stubs (each target is an external_body fn / index loop with a stated std contract)"""
     text = src.text
     seg = text[start:end]
     for m in re.finditer(r'([\w\.]+)\.chars\(\)\.rev\(\)\.collect\(\)', seg):
         piece.replace(start + m.start(), start + m.end(), 'verif_rev_string(&%s)' % m.group(1), 'R8:rev_string')
     for m in re.finditer(r'([\w\.]+)\.iter_mut\(\)\.for_each\(\|(\w+)\| \*\2 /= ([^;]+)\);', seg):
-        piece.replace(start + m.start(), start + m.end(), 'verif_div_all(&mut %s, %s);' % (m.group(1), m.group(3)), 'R8:div_all')
+        d = r9_text(m.group(3)) if r9 else m.group(3)
+        piece.replace(start + m.start(), start + m.end(), 'verif_div_all(&mut %s, %s);' % (m.group(1), d), 'R8:div_all')
     for m in re.finditer(r'(\w+)\.clone_from\(&(\w+)\)', seg):
         piece.replace(start + m.start(), start + m.end(), 'verif_clone_from(&mut %s, &%s)' % (m.group(1), m.group(2)), 'R8:clone_from')
     for m in re.finditer(r'Vec::from_iter\((\w+)\)', seg):
@@ -457,9 +460,20 @@ def rule_R8(piece, src, start, end, loops, loop_specs):
 R9_LITS = {'0_f64': 'F64::lit_0()', '1_f64': 'F64::lit_1()', '2.0': 'F64::lit_2()', '0.0': 'F64::lit_0()'}
 
 
+def r9_text(text):
+    """R9 applied to a text fragment captured by another rule"""
+    text = re.sub(r'\bf64\b', 'F64', text)
+    for k, v in R9_LITS.items():
+        text = re.sub(r'(?<![\w.])%s(?![\w.])' % re.escape(k), v, text)
+    return text
+
+
 def rule_R9(piece, toks):
     """float abstraction: f64 -> F64, float literals -> F64::lit_*(), f64::max -> F64::max"""
+    covered = [(e[0], e[1]) for e in piece.edits if e[1] > e[0]]
     for i, t in enumerate(toks):
+        if any(a <= t.start and t.end <= b for (a, b) in covered):
+            continue
         if t.kind == 'ident' and t.text == 'f64':
             piece.replace(t.start, t.end, 'F64', 'R9')
         elif t.kind == 'num' and t.text in R9_LITS:
@@ -647,7 +661,7 @@ def _extract_fn(src, first, o, c, impl_info, rules, sections, opts, entry, repor
     if 'R3' in rules:
         rule_R3(piece, ftoks, impl_info, src)
     if 'R8' in rules:
-        rule_R8(piece, src, s, e, loops, loop_specs)
+        rule_R8(piece, src, s, e, loops, loop_specs, 'R9' in rules)
     if 'R5' in rules:
         rule_R5(piece, ftoks, loops, src, loop_specs)
     if 'R6' in rules:
@@ -682,6 +696,10 @@ def _extract_fn(src, first, o, c, impl_info, rules, sections, opts, entry, repor
 
     for (n, where), v in loop_specs.items():
         lp = loops[n - 1]
+        if where in ('pre-next', 'on-none'):
+            if not lp.get('r5'):
+                raise LostAnchor('loop %d %s: only valid on a loop rewritten by R5' % (n, where))
+            continue
         if where == 'header':
             if lp.get('r5') or lp.get('header_done'):
                 continue  # already placed by the rewrite
@@ -816,7 +834,7 @@ def _extract_stmts(src, name, rules, sections, opts, entry, report):
                     loops.append({'kw': i, 'open': j, 'close': match_close(toks, j), 'kind': t.text})
             i += 1
     if 'R8' in rules:
-        rule_R8(piece, src, s, e, loops, loop_specs)
+        rule_R8(piece, src, s, e, loops, loop_specs, 'R9' in rules)
     if 'R5' in rules:
         rule_R5(piece, stoks, loops, src, loop_specs)
     if 'R7' in rules:
@@ -827,6 +845,10 @@ def _extract_stmts(src, name, rules, sections, opts, entry, report):
         if n > len(loops):
             raise LostAnchor('stmts loop %d: only %d loops in range' % (n, len(loops)))
         lp = loops[n - 1]
+        if where in ('pre-next', 'on-none'):
+            if not lp.get('r5'):
+                raise LostAnchor('loop %d %s: only valid on a loop rewritten by R5' % (n, where))
+            continue
         if where == 'header':
             if lp.get('r5') or lp.get('header_done'):
                 continue
@@ -879,9 +901,14 @@ def build_unit(template_path, out_path, report_path, defines=None):
     def inc(m):
         p = os.path.join(os.path.dirname(template_path), m.group(1))
         with open(p) as g:
-            return g.read()
+            body = g.read()
+        # optional textual parameters:  //@include file A=expr B=expr   (whole-word substitution)
+        for kv in (m.group(2) or '').split():
+            k, v = kv.split('=', 1)
+            body = re.sub(r'\b%s\b' % re.escape(k), v.replace('\\', '\\\\'), body)
+        return body
     for _ in range(4):
-        text = re.sub(r'^[ \t]*//@include (\S+)[ \t]*$', inc, text, flags=re.M)
+        text = re.sub(r'^[ \t]*//@include (\S+)((?:[ \t]+\w+=\S+)*)[ \t]*$', inc, text, flags=re.M)
     # conditional blocks: //@if NAME ... //@endif
     defines = defines or set()
     def cond(m):
